@@ -34,8 +34,8 @@ package raycrossing
 //@   ensures [boundary-complete] ringOnX(p[0], p[1], cells(ring), off(ring), strideOf(layout), cnt(len(ring), strideOf(layout)) - 1) ==> res == 1
 //@   ensures [parity] res != 1 ==> (res == 0 <==> ringCross(p[0], p[1], cells(ring), off(ring), strideOf(layout), cnt(len(ring), strideOf(layout)) - 1) % 2 == 1) && (res == 0 || res == 2)
 //@   modifies nothing
-//@   at stmt8: assert counter.isPointOnSegment ==> ringOn(p[0], p[1], cells(ring), off(ring), stride, m + 1) && m + 1 <= cnt(len(ring), stride) - 1
-//@   at stmt8: use ringOnMono(p[0], p[1], cells(ring), off(ring), stride, m + 1, cnt(len(ring), stride) - 1)
+//@   at stmt[counter.countSegment(p1, p2)]: assert counter.isPointOnSegment ==> ringOn(p[0], p[1], cells(ring), off(ring), stride, m + 1) && m + 1 <= cnt(len(ring), stride) - 1
+//@   at stmt[counter.countSegment(p1, p2)]: use ringOnMono(p[0], p[1], cells(ring), off(ring), stride, m + 1, cnt(len(ring), stride) - 1)
 //@   loop 1:
 //@     ghost m int = 0 step m + 1
 //@     invariant m >= 0 && i == mul(m + 1, stride) && stride == strideOf(layout) && mul(m + 2, stride) == mul(m + 1, stride) + stride && len(ring) == mul(cnt(len(ring), stride), stride) && (m == 0 || mul(m, stride) < len(ring))
